@@ -53,6 +53,11 @@ Inv == /\ PagesComplete(s) /\ PendingOnlyWhen(s) /\ CounterZeroOutsideTransfer(s
 \* the documented behaviour of every step from every reachable state (also: Step is total)
 StepOK == \A i \in 1..Len(Alpha) : StepProps(s, Alpha[i])
 
+\* VirtualSign refines the size abstraction SignAbs, whose invariants Apalache shows inductive for unbounded counters and lengths
+Abs == INSTANCE SignAbs WITH st <- s.st, chunks <- s.chunks, pend <- Len(s.pending), npages <- Len(s.pages), cfgd <- (s.w > 0 /\ s.h > 0)
+AbsRefines == [][Abs!Next]_<<s.st, s.chunks, Len(s.pending), Len(s.pages), s.w > 0 /\ s.h > 0>>
+AbsInv == Abs!IndInv
+
 Silent(i) == LET x == Step(s, Alpha[i]) IN x.r = NoReply /\ x.s = s
 NonSilent == SelectSeq([i \in 1..Len(Alpha) |-> i], LAMBDA i : ~Silent(i))
 EmitState == Emit =>
